@@ -274,6 +274,8 @@ static void gen_pair(Out& out, Rng& g, bool with_lh) {
     } else S = 1000;
     static const int64_t SPANS[5] = {12, 60, 1000, 40000, 1 << 20};
     int64_t span = SPANS[g.below(S == 1000 ? 3 : 5)];
+    // beyond Clipper's loRange (2^30 - 1 after scaling) the slope comparisons switch to 128-bit arithmetic
+    if (S == 1 && sub == 0 && g.chance(8)) span = (int64_t)1 << (31 + (int)g.below(3));
     std::vector<IPoly> ia, ib;
     std::string scen;
     auto& pool = pools.keyholes[S];
